@@ -69,6 +69,28 @@ func VH_C02_samples() {
 			j++
 		}
 	}
+	// a second block is opened while the first is still alive (the open batch next to the batch being sent, or
+	// another service drawing from the same pools): writing it must not change the first
+	cols2 := svc.AcquireColumns()
+	c := vcSamples("c", vrt.Len("rows-c", 1, 2))
+	n3, cols2, err := svc.ProcessRequest(c, cols2)
+	vrt.Assert(err == nil && n3 == len(c.MTimestampNS), "request-accepted-with-its-row-count")
+	vcRectangular(cols2, n3)
+	vcRectangular(cols, na+nb)
+	acq2 := (&SamplesAcquirer{}).deserialize(cols2)
+	for i := range c.MTimestampNS {
+		vrt.Assert(acq2.Type.Data[i] == c.MType[i] && acq2.TimestampNS.Data[i] == c.MTimestampNS[i] && acq2.Fingerprint.Data[i] == c.MFingerprint[i],
+			"second-block-row-from-its-own-request-row")
+	}
+	acq = (&SamplesAcquirer{}).deserialize(cols)
+	j = 0
+	for _, r := range []*model.TimeSamplesData{first, second} {
+		for i := range r.MTimestampNS {
+			vrt.Assert(acq.Type.Data[j] == r.MType[i] && acq.TimestampNS.Data[j] == r.MTimestampNS[i] && acq.Fingerprint.Data[j] == r.MFingerprint[i] &&
+				acq.Value.Data[j] == r.MValue[i] && acq.String.Data.Row(j) == r.MMessage[i], "first-block-unchanged-by-the-second")
+			j++
+		}
+	}
 	vrt.Reach("end")
 }
 
